@@ -3,9 +3,9 @@ package props
 import (
 	"encoding/json"
 	"fmt"
+	"math/big"
 	"os"
 	"path/filepath"
-	"math/big"
 	"reflect"
 	"strings"
 	"time"
